@@ -77,8 +77,20 @@ def impl(case):
     w = _build(case)
     n = len(case["ab"])
     res = {}
+    how = case.get("how", "setter")
     if case["box"] is not None:
-        w.bounding_box = _box_arg(case["box"])
+        if how == "setter" or n == 1:
+            w.bounding_box = _box_arg(case["box"])
+        else:
+            # the box lives on the astropy model in astropy's own ('C', last axis first) order, as wcs_from_fiducial and many
+            # pipelines create it; "copy" then assigns that ModelBoundingBox object to another WCS
+            src = _build(case)
+            src.forward_transform.bounding_box = tuple((lo, hi) for lo, hi in case["box"])[::-1]
+            src = gw.WCS([("detector", src.forward_transform), ("world", None)])
+            if how == "model":
+                w = src
+            else:
+                w.bounding_box = src.bounding_box
     res["box_back"] = _read_box(w)
     pb = w.pixel_bounds
     res["pixel_bounds"] = None if pb is None else [[_cf(a), _cf(b)] for a, b in pb]
@@ -101,7 +113,9 @@ def impl(case):
     # the box as reported back after evaluating (explicit F order, and the way a user reads it: default order / tuple equality)
     res["box_after_eval"] = _read_box(w)
     res["box_default_after_eval"] = _read_box(w, order=None)
-    res["box_eq_after_eval"] = None if case["box"] is None else bool(w.bounding_box == _box_arg(case["box"]))
+    if w.bounding_box is not None and w.bounding_box.order == "C" and res["box_default_after_eval"] is not None:
+        res["box_default_after_eval"] = res["box_default_after_eval"][::-1]     # its own order is last axis first
+    res["box_eq_after_eval"] = None if (case["box"] is None or (how != "setter" and n > 1)) else bool(w.bounding_box == _box_arg(case["box"]))
     # array evaluation in the requested shape
     shape = tuple(case["shape"])
     cols = [np.array([pt[i] for pt in case["pts"]], dtype=float).reshape(shape) for i in range(n)]
@@ -194,6 +208,7 @@ def nontrivial(case, res):
 
 
 def stats(case, res, st):
+    st["box_how_" + case.get("how", "setter")] += 1
     st["dim_%d" % len(case["ab"])] += 1
     st["box_none" if case["box"] is None else "box_" + case.get("boxkind", "?")] += 1
     st["fill_" + ("default" if case["fill"] is None else ("nan" if case["fill"] != case["fill"] else ("inf" if math.isinf(case["fill"]) else ("zero" if case["fill"] == 0 else "finite"))))] += 1
@@ -256,4 +271,4 @@ def gen(rng, tier):
         wd = dim + rng.choice([-1, 1]) if dim > 1 else 2
         wrong = [[0.0, 1.0 + i] for i in range(wd)]
         yield {"ab": ab, "box": box, "boxkind": kind, "fill": fill, "withbb": withbb, "pts": pts, "shape": rng.choice(shapes[npts]),
-               "wrong_box": wrong, "has_edge": has_edge}
+               "wrong_box": wrong, "has_edge": has_edge, "how": rng.choice(["setter", "setter", "model", "copy"])}
